@@ -438,6 +438,11 @@ def run(prog, rep, tier):
     check_stale_loop_reads(prog, rep, ['tenpy/networks/mpo.py'])
     rep.rule('PERM-both-legs', 'from_Wflat permutes both physical legs of the W tensors')
     check_perm_both_legs(prog, rep)
+    from ..flow import check_group_stride
+    rep.rule('GROUP-stride', 'loops over grouped sites advance by the size of the group, never by the '
+             'nominal n')
+    if check_group_stride(prog, rep, ['tenpy/networks/mpo.py']) < 1:
+        raise AnalysisError('GROUP-stride: loop over grouped_sites not found')
     return rep.finish(
         level='other',
         explanation='Flag exhaustiveness over %d W-using MPO methods, flag forwarding of derived '
